@@ -370,6 +370,12 @@ func genC14Conc(t *rapid.T) *c14Conc {
 	for i, n := 0, rapid.IntRange(0, 10).Draw(t, "nsetup"); i < n; i++ {
 		sc.Setup = append(sc.Setup, genSmallOp(t))
 	}
+	if rapid.IntRange(0, 3).Draw(t, "populated") == 0 {
+		// start from a populated tracker: everybody on #x, and "a" alone on #y where the client is not, so
+		// that deletions have cascading work to do (and "should not happen" paths to log)
+		sc.Setup = []trOp{{Op: "NewNick", A: "a"}, {Op: "NewNick", A: "b"}, {Op: "NewChannel", A: "#x"}, {Op: "NewChannel", A: "#y"},
+			{Op: "Associate", A: "#x", B: "me"}, {Op: "Associate", A: "#x", B: "a"}, {Op: "Associate", A: "#x", B: "b"}, {Op: "Associate", A: "#y", B: "a"}}
+	}
 	g := rapid.IntRange(2, 6).Draw(t, "goroutines")
 	for i := 0; i < g; i++ {
 		var ops []trOp
@@ -412,7 +418,7 @@ func (c14Logger) out(f string, a []interface{}) {
 func (l c14Logger) Debug(f string, a ...interface{}) { l.out(f, a) }
 func (l c14Logger) Info(f string, a ...interface{})  { l.out(f, a) }
 func (l c14Logger) Warn(f string, a ...interface{})  { l.out(f, a) }
-func (l c14Logger) Error(f string, a ...interface{}) { l.out(f, a) }
+func (l c14Logger) Error(f string, a ...interface{}) { l.out(f, a); time.Sleep(50 * time.Microsecond) } // (errors go somewhere slow)
 
 func runC14Conc(sc *c14Conc) (overlap bool, v *Violation) {
 	old := runtime.GOMAXPROCS(sc.Procs)
